@@ -88,14 +88,15 @@ PROPS = {
                     "or a kernel that takes every write in full) - for a closing request under a short write the tree truncates the answer "
                     "(known finding c10-close-drops-backlog, c10_pipeline_counterexample); closed iff a closing request exists; "
                     "closeDecision = RFC 7230 6.3 on single-option Connection values only; (b) non-interference "
-                    "of N connections on a shared buffer heap under C11/C20's conclusions; (c) client callback FIFO: exactly once, k-th "
+                    "of N connections on a shared buffer heap under the hypothesis that the interleaved run itself is fault-free (no allocLive / notOwner / staleRead; that hypothesis is established by no theorem of C11 or C20); (c) client callback FIFO: exactly once, k-th "
                     "callback gets the k-th response or an error.  Tied to the code by real nbhttp engines over loopback: the per-connection "
                     "response sequence observed by a raw pipelining client, net/http and the nbhttp client is compared with the model's "
                     "prediction over the matrix IOMod x {plain, TLS} x epoll mode, plus direct oracles for order, close, foreign bytes, callbacks",
             "note": "proof on model, partial: TLS record layer, real scheduling and I/O-mode dispatch are exercised, not modelled; "
-                    "the model is above C05/C06/C07/C09/C11/C20 (their conclusions are hypotheses of the composition; for C05 the queue part of Pipeline is proved to "
-                    "refine ExecQ in the non-blocking modes, c10_queue_refines_execq, and in the blocking modes, where Execute calls the job "
-                    "inline, c10_queue_sync / c10_sync_inline state the queue clause directly; the parser and the response writer stay cited).  Clause status: 'answers each request exactly once' is VIOLATED on the tree "
+                    "the model is above C05/C06/C07/C09/C11/C20 (their conclusions are hypotheses of the composition; for C05 there is a forward simulation only: every Pipeline run of the non-blocking "
+                    "modes has a matching ExecQ run, c10_queue_refines_execq — no converse, so Pipeline's theorems are NOT transferred to "
+                    "the interleavings of conn.go; in the blocking modes, where Execute calls the job inline, c10_queue_sync states the "
+                    "queue clause about Pipeline alone; the parser and the response writer stay cited).  Clause status: 'answers each request exactly once' is VIOLATED on the tree "
                     "for closing requests whose response the kernel did not take in full (finding c10-close-drops-backlog, "
                     "c10_pipeline_counterexample); it is proved for histories without a closing request under any kernel behaviour "
                     "(c10_pipeline_keepalive), for any history when the kernel takes every write in full (c10_pipeline), and otherwise only "
@@ -112,13 +113,22 @@ PROPS = {
                     "to RFC 7230 6.3 only for single-option Connection lines (lists in one line deviate: "
                     "c10_close_rfc_list_counterexample).  (4) client clause: got=/lost= are echoed; timeout expiry inside onResponse and "
                     "Reset are never replayed against the implementation; the response-matches-request part assumes EnvOK (the peer sends "
-                    "exactly one response per request on the current connection).  (5) C05: c10_queue_refines_execq is a forward "
-                    "simulation of Pipeline's queue / cur / closed fields by ExecQ.step (every enabled Pipeline action is matched by the "
-                    "ExecQ actions it stands for; C05's one-at-a-time / FIFO / exactly-once theorems are transported to `handled`) for "
-                    "cfg.sync = false; in the blocking modes Execute runs the job inline and there is no ExecQ: c10_queue_sync (all "
-                    "schedules: pending jobs = requests fin..next-1, nothing refused, handled = 0..fin-1 plus the running one) and "
-                    "c10_sync_inline (schedules in which a request is completed only while no job is pending: the queue never holds more "
-                    "than the running job) are theorems about Pipeline alone — that the SyncExecutor is `f(); return true` is read off "
+                    "exactly one response per request on the current connection).  (5) C05: c10_queue_refines_execq is a FORWARD "
+                    "simulation, direction Pipeline -> ExecQ, for cfg.sync = false: every Pipeline run has a matching ExecQ run built by the "
+                    "proof's own translation execTrace, which uses only submit _ false, spawn, start, finish 0 false, next 0 false and close "
+                    "(no MustExecute, no panic, big = false; submit+spawn and finish[+close]+next are fused); it relates queue, closed, fin, "
+                    "handled and the flag cur.isSome — not next, wire, pending, dropped, byServer.  What it carries over from C05 are four "
+                    "conjuncts weaker than C05's theorems: handled = done ++ running, at most one running, done a prefix of acc, and "
+                    "acc.Nodup -> handled.Nodup with the premise NOT discharged (at most once, not exactly once; C05's completeness conjunct "
+                    "is dropped; Pipeline's own c10_handlers_in_order, handled = 0..h-1, is stronger and true by construction of the model).  "
+                    "There is NO converse: no theorem maps an ExecQ run — the model tied to conn.go — to a Pipeline schedule, so the "
+                    "Pipeline theorems are not shown to hold for the real interleavings of Conn.Execute; in the blocking modes Execute runs the job inline and there is no ExecQ: c10_queue_sync (all "
+                    "schedules: pending jobs = requests fin..next-1, nothing refused, handled = 0..fin-1 plus the running one) is a theorem "
+                    "about Pipeline alone (a consequence of the model's invariant, i.e. of how parse/finish are written) and is the only one "
+                    "that covers the driver's blocking-mode runs; c10_sync_inline (schedules in which a request is completed only while no "
+                    "job is pending: the queue never holds more than the running job) applies to NONE of pipedrv's runs — the driver gives "
+                    "every response two conn writes and its forced schedules parse everything first, so its schedules fail inlineSched, which "
+                    "the driver never evaluates; the witness uses one-write responses; that the SyncExecutor is `f(); return true` is read off "
                     "the source, not modelled; the translation "
                     "execTrace is a definition of this proof (which ExecQ actions a Pipeline action stands for), not something observed; "
                     "C06/C07 (parse) and C09 (pieces) remain hypotheses without a refinement theorem",
